@@ -13,9 +13,9 @@ Import ListNotations.
 Definition key := nat.
 Definition val := nat.
 Definition fid := nat.
-Record rrec := mkRRec { rk : key; rv : val }.
+Record rrec := mkRRec { rk : key; rv : option val }.      (* rv = None: a tombstone *)
 
-Inductive wpc := WIdle | WAppended (k : key) (loc : fid * nat) | WDone.
+Inductive wpc := WIdle | WAppended (k : key) (loc : fid * nat) | WAppendedDel (k : key) | WDone (deleted : option bool).
 Inductive gpc :=
 | GIdle
 | GLooked (k : key) (loc : option (fid * nat)) (commit : option val)
@@ -32,9 +32,10 @@ Record rst := mkRS {
 }.
 
 Inductive rev :=
-| WAppend (k : key) (v : val)      (* append the record to the active file *)
+| WAppend (k : key) (v : val)      (* put: append the record to the active file *)
+| WAppendDel (k : key)             (* delete: append a tombstone *)
 | WRoll                            (* create the next file and make it the active one (between append and publish) *)
-| WPublish                         (* KeyDir insert *)
+| WPublish                         (* KeyDir insert / remove *)
 | WReturn
 | GLookup (t : nat) (k : key)
 | GRead (t : nat)
@@ -43,7 +44,10 @@ Inductive rev :=
 Definition upd {A} (f : nat -> A) (t : nat) (x : A) : nat -> A := fun u => if Nat.eqb u t then x else f u.
 
 Definition rvalue_at (s : rst) (loc : fid * nat) : option val :=
-  match rfiles s (fst loc) with Some recs => option_map rv (nth_error recs (snd loc)) | None => None end.
+  match rfiles s (fst loc) with
+  | Some recs => match nth_error recs (snd loc) with Some r => rv r | None => None end
+  | None => None
+  end.
 Definition rgmap (s : rst) (k : key) : option val := match ridx s k with Some loc => rvalue_at s loc | None => None end.
 
 Section Rule.
@@ -54,21 +58,31 @@ Definition rstep (s : rst) (e : rev) : option rst :=
   | WAppend k v =>
     match wstate s, rfiles s (ractive s) with
     | WIdle, Some recs =>
-      Some (mkRS (upd (rfiles s) (ractive s) (Some (recs ++ [mkRRec k v]))) (ractive s) (ridx s) (WAppended k (ractive s, length recs)) (rreaders s) (rmaps s))
+      Some (mkRS (upd (rfiles s) (ractive s) (Some (recs ++ [mkRRec k (Some v)]))) (ractive s) (ridx s) (WAppended k (ractive s, length recs)) (rreaders s) (rmaps s))
+    | _, _ => None
+    end
+  | WAppendDel k =>
+    match wstate s, rfiles s (ractive s) with
+    | WIdle, Some recs =>
+      Some (mkRS (upd (rfiles s) (ractive s) (Some (recs ++ [mkRRec k None]))) (ractive s) (ridx s) (WAppendedDel k) (rreaders s) (rmaps s))
     | _, _ => None
     end
   | WRoll =>
     match wstate s, rfiles s (S (ractive s)) with
     | WAppended k loc, None =>
       Some (mkRS (upd (rfiles s) (S (ractive s)) (Some [])) (S (ractive s)) (ridx s) (WAppended k loc) (rreaders s) (rmaps s))
+    | WAppendedDel k, None =>
+      Some (mkRS (upd (rfiles s) (S (ractive s)) (Some [])) (S (ractive s)) (ridx s) (WAppendedDel k) (rreaders s) (rmaps s))
     | _, _ => None
     end
   | WPublish =>
     match wstate s with
-    | WAppended k loc => Some (mkRS (rfiles s) (ractive s) (upd (ridx s) k (Some loc)) WDone (rreaders s) (rmaps s))
+    | WAppended k loc => Some (mkRS (rfiles s) (ractive s) (upd (ridx s) k (Some loc)) (WDone None) (rreaders s) (rmaps s))
+    | WAppendedDel k =>        (* KeyDir remove: the answer is whether an entry was there *)
+      Some (mkRS (rfiles s) (ractive s) (upd (ridx s) k None) (WDone (Some (match ridx s k with Some _ => true | None => false end))) (rreaders s) (rmaps s))
     | _ => None
     end
-  | WReturn => match wstate s with WDone => Some (mkRS (rfiles s) (ractive s) (ridx s) WIdle (rreaders s) (rmaps s)) | _ => None end
+  | WReturn => match wstate s with WDone _ => Some (mkRS (rfiles s) (ractive s) (ridx s) WIdle (rreaders s) (rmaps s)) | _ => None end
   | GLookup t k =>
     match rreaders s t with
     | GIdle => Some (mkRS (rfiles s) (ractive s) (ridx s) (wstate s) (upd (rreaders s) t (GLooked k (ridx s k) (rgmap s k))) (rmaps s))
@@ -87,7 +101,7 @@ Definition rstep (s : rst) (e : rev) : option rst :=
                  | Some n0 => if fixed && (n0 <=? p) then length recs else n0
                  end in
         if p <? n
-        then Some (mkRS (rfiles s) (ractive s) (ridx s) (wstate s) (upd (rreaders s) t (GDone k (option_map rv (nth_error recs p)) c))
+        then Some (mkRS (rfiles s) (ractive s) (ridx s) (wstate s) (upd (rreaders s) t (GDone k (match nth_error recs p with Some r => rv r | None => None end) c))
                         (upd (rmaps s) t (upd (rmaps s t) f (Some n))))
         else Some (mkRS (rfiles s) (ractive s) (ridx s) (wstate s) (upd (rreaders s) t GFailed) (rmaps s))            (* slice out of range *)
       end
